@@ -59,7 +59,7 @@ def run(ctx):
         seen = {shape_str(c) for c in single}
         big = [c for c in big if shape_str(c) not in seen]
         ctx.cov["generated"]["single_crash_cases_big_shapes"] = len(big)
-        cases = single + rng.sample(big, min(len(big), 500))
+        cases = single + rng.sample(big, min(len(big), 300))
         double = [c for c in f_double.result() if len(c["crashes"]) == 2]
     else:
         # one generator run: 12 shapes, every schedule of up to two crashes
@@ -71,7 +71,7 @@ def run(ctx):
         raise vlib.Undecided("generator produced only %d single-crash cases" % len(single))
     ctx.cov["generated"]["single_crash_cases"] = len(single)
     ctx.cov["generated"]["double_crash_cases"] = len(double)
-    cases += rng.sample(double, min(len(double), ctx.pick(50, 1400)))
+    cases += rng.sample(double, min(len(double), ctx.pick(50, 1000)))
     nwit = 0
     for f in f_negs:
         sw, w = f.result()
@@ -102,14 +102,15 @@ def run(ctx):
         raise vlib.Undecided("replayer self-test failed: a falsified expected content was not reported (%s)" % pr["verdict"])
     ctx.cov["binding_selftests"] = [{"perturbed": "expected last applied WAL of one case", "reported_as": pr["verdict"]}]
 
-    by_point, by_verdict, diffs, skipped = {}, {}, [], 0
+    by_point, by_verdict, diffs, skipped, faults = {}, {}, [], 0, []
     for c, r in zip(cases, res):
         v = r["verdict"]
         if v.startswith("harness:"):
             if c.get("witness") and v == "harness:crash-point-not-reached":
                 skipped += 1
                 continue
-            raise vlib.Undecided("harness fault in case %s / %s: %s %s" % (r["shape"], r["crash"], v, r.get("detail")))
+            faults.append("%s / %s: %s %s" % (r["shape"], r["crash"], v, r.get("detail")))
+            continue
         by_verdict[v] = by_verdict.get(v, 0) + 1
         for cr in c["crashes"]:
             by_point[cr["point"]] = by_point.get(cr["point"], 0) + 1
@@ -121,6 +122,10 @@ def run(ctx):
                           {"case": c, "result": r})
     f_design.result()
     pool.shutdown()
+    if faults and not ctx.violations:
+        # e.g. a crash point of the schedule was never reached: spec and code disagree on the steps, no verdict
+        raise vlib.Undecided("harness fault in %d case(s), e.g. %s" % (len(faults), faults[0]))
+    ctx.cov["cases_without_verdict"] = len(faults)
     ctx.cov["replay"] = st
     ctx.cov["cases_by_verdict"] = by_verdict
     ctx.cov["crashes_by_point"] = by_point
